@@ -10,6 +10,8 @@ package main
 import (
 	"bytes"
 	"context"
+	"crypto/sha1"
+	"encoding/hex"
 	"encoding/json"
 	"fmt"
 	"os"
@@ -47,6 +49,10 @@ type lcVec struct {
 	Runners   [][]lcStep        `json:"runners"`
 	TimeoutMs int               `json:"timeout_ms"`
 	WantVars  bool              `json:"want_vars"`
+	// TreeCheck: "" = after every call compare the printed form of the tree with the one at parse
+	// time; "json" = additionally the typed-JSON encoding of every tree after all runners are done;
+	// "json_each" = typed JSON after every call (typedjson costs ~3 ms per encoding of the probe).
+	TreeCheck string `json:"tree_check"`
 }
 
 type lcStepRes struct {
@@ -64,6 +70,11 @@ type lcStepRes struct {
 	PrintSame bool    `json:"print_same"`
 	TreeDiff  string  `json:"tree_diff,omitempty"`
 	NRun      int     `json:"nrun"` // number of Run calls made by this step
+	// Trace-validation fields (filled when tree_check is "json_each"): fingerprints of what the
+	// caller owns, taken after the call, and the number of Set calls on the user's Environ so far.
+	TreeHash string `json:"tree_hash,omitempty"`
+	EnvHash  string `json:"env_hash,omitempty"`
+	EnvSetN  int    `json:"env_setn"`
 }
 
 type lcVar struct {
@@ -90,6 +101,8 @@ type lcRunnerRes struct {
 	EnvGets     int               `json:"env_gets"`
 	EnvBefore   []string          `json:"env_before,omitempty"`
 	EnvAfter    []string          `json:"env_after,omitempty"`
+	EnvHash0    string            `json:"env_hash0,omitempty"`
+	TreeHash0   map[string]string `json:"tree_hash0,omitempty"`
 }
 
 // recEnv is the user's Environ: a ListEnviron behind a wrapper that also offers Set
@@ -163,17 +176,36 @@ type lcTree struct {
 	file   *syntax.File
 	golden []byte // typed JSON at parse time
 	print  []byte // printed form at parse time
+	hash0  string // fingerprint at parse time
 }
 
-func snapshot(f *syntax.File) (js, pr []byte) {
-	var jb, pb bytes.Buffer
+func fingerprint(parts ...[]byte) string {
+	h := sha1.New()
+	for _, p := range parts {
+		h.Write(p)
+		h.Write([]byte{0})
+	}
+	return hex.EncodeToString(h.Sum(nil))[:16]
+}
+
+func envHash(e expand.Environ) string {
+	return fingerprint([]byte(strings.Join(envSeq(e), "\n")))
+}
+
+func snapJSON(f *syntax.File) []byte {
+	var jb bytes.Buffer
 	if err := (typedjson.EncodeOptions{}).Encode(&jb, f); err != nil {
 		jb.WriteString("ENCODE ERROR: " + err.Error())
 	}
+	return jb.Bytes()
+}
+
+func snapPrint(f *syntax.File) []byte {
+	var pb bytes.Buffer
 	if err := syntax.NewPrinter().Print(&pb, f); err != nil {
 		pb.WriteString("PRINT ERROR: " + err.Error())
 	}
-	return jb.Bytes(), pb.Bytes()
+	return pb.Bytes()
 }
 
 func firstDiff(a, b []byte) string {
@@ -227,7 +259,11 @@ func lifecycleEngine(raw json.RawMessage, _ []string) (any, error) {
 			return map[string]any{"parse_error": name + ": " + err.Error()}, nil
 		}
 		t := &lcTree{file: f}
-		t.golden, t.print = snapshot(f)
+		t.print = snapPrint(f)
+		if v.TreeCheck != "" {
+			t.golden = snapJSON(f)
+			t.hash0 = fingerprint(t.golden, t.print)
+		}
 		trees[name] = t
 	}
 	to := time.Duration(v.TimeoutMs) * time.Millisecond
@@ -238,7 +274,20 @@ func lifecycleEngine(raw json.RawMessage, _ []string) (any, error) {
 	for _, steps := range v.Runners {
 		out = append(out, runLifecycle(v, trees, steps, to))
 	}
-	return map[string]any{"runners": out}, nil
+	// Every tree once more after all runners are done: typed JSON and printed form as at parse time.
+	changed := map[string]string{}
+	for name, t := range trees {
+		if v.TreeCheck != "" {
+			if js := snapJSON(t.file); !bytes.Equal(js, t.golden) {
+				changed[name] = "typedjson " + firstDiff(t.golden, js)
+				continue
+			}
+		}
+		if pr := snapPrint(t.file); !bytes.Equal(pr, t.print) {
+			changed[name] = "printed " + firstDiff(t.print, pr)
+		}
+	}
+	return map[string]any{"runners": out, "trees_changed": changed}, nil
 }
 
 func runLifecycle(v lcVec, trees map[string]*lcTree, steps []lcStep, to time.Duration) (res lcRunnerRes) {
@@ -257,6 +306,13 @@ func runLifecycle(v lcVec, trees map[string]*lcTree, steps []lcStep, to time.Dur
 	}
 	uenv := &recEnv{inner: expand.ListEnviron(pairs...)}
 	before := envSeq(uenv)
+	if v.TreeCheck == "json_each" {
+		res.EnvHash0 = envHash(uenv)
+		res.TreeHash0 = map[string]string{}
+		for name, t := range trees {
+			res.TreeHash0[name] = t.hash0
+		}
+	}
 	uenv.gets = 0
 
 	var outb, errb bytes.Buffer
@@ -374,15 +430,24 @@ func runLifecycle(v lcVec, trees map[string]*lcTree, steps []lcStep, to time.Dur
 			sr.File = &s
 		}
 		if t != nil {
-			js, pr := snapshot(t.file)
-			sr.TreeSame = bytes.Equal(js, t.golden)
+			pr := snapPrint(t.file)
 			sr.PrintSame = bytes.Equal(pr, t.print)
-			if !sr.TreeSame {
-				sr.TreeDiff = "typedjson " + firstDiff(t.golden, js)
-			} else if !sr.PrintSame {
+			if v.TreeCheck == "json_each" {
+				js := snapJSON(t.file)
+				sr.TreeSame = bytes.Equal(js, t.golden)
+				if !sr.TreeSame {
+					sr.TreeDiff = "typedjson " + firstDiff(t.golden, js)
+				}
+				sr.TreeHash = fingerprint(js, pr)
+			}
+			if !sr.PrintSame && sr.TreeDiff == "" {
 				sr.TreeDiff = "printed " + firstDiff(t.print, pr)
 			}
 		}
+		if v.TreeCheck == "json_each" {
+			sr.EnvHash = envHash(uenv)
+		}
+		sr.EnvSetN = len(uenv.sets)
 		res.Steps = append(res.Steps, sr)
 	}
 	if !dead {
